@@ -1189,7 +1189,7 @@ class MyPyAstVisitor:
                 name = qname.split(".")[-1]
             else:
                 # In this case some types where defined in multiple modules with the same names.
-                for alias_qname in qnames:
+                for alias_qname in sorted(qnames):
                     # We check if the type was defined in the same module
                     type_path = ".".join(alias_qname.split(".")[0:-1])
                     name = alias_qname.split(".")[-1]
